@@ -26,6 +26,8 @@ def run(prog, chk):
     chk.defer(endpoint_tables, prog, chk)
     chk.defer(response_context_rule, prog, chk)
     chk.defer(_run, prog, chk)
+    chk.defer(submission_clock_table, prog, chk)
+    chk.defer(error_pdu_code_table, prog, chk)
 
 
 def _run(prog, chk):
@@ -113,7 +115,9 @@ def _run(prog, chk):
             ok = st_state == [RECV] and st_resp == [Ptr("RESP")] and pend == 3 and recv == 2 and q.ret == 0 and \
                 seen.get("verify") == (Ptr("RESP"), Ptr("REQ_OF_HANDLE")) and seen.get("getRequest") == Ptr("H")
             want = "reply attached: state RESPONSE_RECEIVED, pending 4->3, received 1->2, verified against the handle's own request"
-        elif matched and verify_ok and not status_ok:
+        elif matched and not status_ok:
+            # whatever the comparison with the request says: a reply that carries an error status has nothing to compare (the extender's
+            # comparison reports that very status as its own failure), and the status concerns the request it names, not the connection
             ok = st_state == [ERRS] and st_err == [0x401] and not st_resp and pend == 4 and recv == 1 and q.ret == 0
             want = "only this handle fails with the converted status"
         elif matched and not verify_ok:
@@ -234,3 +238,114 @@ def _run(prog, chk):
         fns = [n for n in names if n and n.startswith("KSI_")]
         bad = [n for n in fns if other in n]
         chk.ob("C13.wiring", caller, len(fns) >= 6 and not bad, "binds %s" % fns + ("; functions of the other kind: %s" % bad if bad else ""), loc=f.loc(), fn=f)
+
+
+def submission_clock_table(prog, chk):
+    """"send timeout once the configured time has elapsed": the time is counted from the moment the transport accepts the request.
+    The accept step of both transports (addToSendQueue) is evaluated on a fresh handle (request time 0) and on a handle that was
+    submitted before (request time T0 of the earlier submission - the service supports adding a handle again): in both the handle's
+    request time after the call is the time read in this call, and the handle waits for dispatch."""
+    from ksirules.interp import TOP, Interp, Ptr, succeed_model, inline_model, unit_helpers
+    from ksirules.model import lvalue_key, strip
+    chk.rule("C13.sendclock", "accepting a request (re)starts its send-timeout clock: the request time is the time of this submission, also for a "
+                              "handle that was submitted before (sibling table over the transports)", floor=4)
+    NOW, T0 = 1700000500, 1700000000
+    WAITING = prog.const("KSI_ASYNC_STATE_WAITING_FOR_DISPATCH")
+    n = 0
+    for unit in ("net_tcp_async.c", "net_http_curl_async.c"):
+        fns = [f for f in prog.functions.get("addToSendQueue", []) if f.unit == unit]
+        if len(fns) != 1:
+            raise AnalysisBroken("addToSendQueue not found in %s" % unit)
+        fn = fns[0]
+        cp, rp = [p["n"] for p in fn.params]
+        for label, old in (("fresh handle", 0), ("handle submitted before", T0)):
+            def now(I, p, node, args):
+                a0 = strip(node["a"][0]) if node["a"] else None
+                if isinstance(a0, dict) and a0.get("k") == "un" and a0.get("op") == "&":
+                    I.write(p, I.canon(p, lvalue_key(a0["e"], I.fn)), NOW)
+                return NOW
+            ov = {"time": now, "KSI_AsyncHandleList_append": lambda I, p, n_, a: 0}
+            inputs = {cp: Ptr("C"), rp: Ptr("H"), "C->reqQueue": Ptr("Q"), "H->reqTime": old, "H->state": 0, "C->ctx": Ptr("ctx")}
+            hs = unit_helpers(prog, fn) - set(ov)
+            I = Interp(fn, inputs=inputs, call_model=inline_model(prog, hs, fallback=succeed_model(prog, ov)) if hs else succeed_model(prog, ov),
+                       on_unknown="stop", prog=prog)
+            paths = I.run()
+            chk.paths += len(paths)
+            inst = "%s:addToSendQueue[%s]" % (unit, label)
+            if len(paths) != 1 or paths[0].undetermined:
+                raise AnalysisBroken("%s: evaluation not determined: %s" % (inst, [q.undetermined[:1] for q in paths]))
+            q = paths[0]
+            got = (I.read(q, "H->reqTime"), I.read(q, "H->state"))
+            n += 1
+            chk.ob("C13.sendclock", inst, q.ret == 0 and got == (NOW, WAITING),
+                   "expected request time %d (now) and state waiting-for-dispatch; source: status %s, request time %s, state %s" % (NOW, q.ret, got[0], got[1]),
+                   loc=fn.loc(), fn=fn, nontrivial=bool(old))
+
+
+def error_pdu_code_table(prog, chk):
+    """"... otherwise with an error whose cause actually occurred": a handle in state ERROR carries an error code, and KSI_OK is not one
+    (the HA service keeps an endpoint's error to report it later and refuses a held "error" whose code says no error - the request
+    is then never completed).  processResponseQueue is evaluated on a queue holding one error PDU, for each status the PDU can carry
+    (none, 0, a service status) and both services' status converters (evaluated from their own source): every handle that is set to
+    ERROR gets a code other than KSI_OK, and the status received is kept as the extended code."""
+    from ksirules.interp import TOP, Interp, Ptr, succeed_model, inline_model
+    from ksirules.model import lvalue_key, strip
+    chk.rule("C13.errcode", "an error PDU ends the waiting requests with an error CODE (never KSI_OK) whatever status it carries; the status received "
+                            "is kept as the extended code (decision table, both services' converters)", floor=6)
+    fn = prog.fn("processResponseQueue", "net_async.c")
+    pn = [p["n"] for p in fn.params]
+    for conv in ("KSI_convertAggregatorStatusCode", "KSI_convertExtenderStatusCode"):
+        for label, status in (("no status element", None), ("status 0", 0), ("status 0x301", 0x301), ("status 0x101", 0x101)):
+            seterr = []
+            served = [0]
+            ov = {"KSI_Integer_getUInt64": lambda I, p, n, a, status=status: 0 if (a[0] == 0 or status is None) else status,
+                  "KSI_OctetString_extract": lambda I, p, n, a: 0, "KSI_OctetString_free": lambda I, p, n, a: TOP, "KSI_ErrorPdu_free": lambda I, p, n, a: TOP,
+                  "KSI_Utf8String_cstr": lambda I, p, n, a: Ptr("text"), "KSI_ERR_clearErrors": lambda I, p, n, a: TOP, "KSI_ERR_push": lambda I, p, n, a: TOP,
+                  "asyncClient_setResponseError": lambda I, p, n, a: (seterr.append(tuple(a[1:4])), TOP)[1]}
+
+            def out(node, k, I, p, val):
+                a = strip(node["a"][k])
+                if isinstance(a, dict) and a.get("k") == "un" and a.get("op") == "&":
+                    I.write(p, I.canon(p, lvalue_key(a["e"], I.fn)), val)
+
+            def errpdu_status(I, p, node, args):
+                out(node, 1, I, p, 0 if status is None else Ptr("STATUS"))
+                return 0
+            ov["KSI_ErrorPdu_getStatus"] = errpdu_status
+            ov["KSI_ErrorPdu_getErrorMessage"] = lambda I, p, node, a: (out(node, 1, I, p, Ptr("MSG")), 0)[1]
+            base = inline_model(prog, {conv}, fallback=succeed_model(prog, ov))
+
+            def model(I, p, node, name, args, callee_val):
+                slot = callee_val.what[5:] if isinstance(callee_val, Ptr) and str(callee_val.what).startswith("SLOT:") else None
+                if name or slot is None:
+                    return base(I, p, node, name, args, callee_val)
+                if slot == "getResponse":
+                    served[0] += 1
+                    out(node, 1, I, p, Ptr("RESP") if served[0] == 1 else 0)
+                    out(node, 2, I, p, 0)
+                    return 0
+                if slot == "pdu_parse":
+                    out(node, 3, I, p, Ptr("PDU"))
+                    return 0
+                if slot == "pdu_getError":
+                    out(node, 1, I, p, Ptr("ERRPDU"))
+                    return 0
+                if slot == "convertStatusCode":
+                    return base(I, p, node, conv, args, None)
+                if slot == "pdu_free":
+                    return TOP
+                return 0
+            inputs = {pn[0]: Ptr("C"), "C->ctx": Ptr("ctx"), "C->clientImpl": Ptr("IMPL"), "C->getResponse": Ptr("SLOT:getResponse"),
+                      "C->getCredentials": Ptr("SLOT:getCredentials")}
+            for k in pn[1:]:
+                inputs[k] = Ptr("SLOT:" + k)
+            I = Interp(fn, inputs=inputs, call_model=model, on_unknown="stop", prog=prog, loop_bound=4)
+            paths = I.run()
+            chk.paths += len(paths)
+            inst = "error PDU[%s, %s]" % (label, conv.replace("KSI_convert", "").replace("StatusCode", "").lower())
+            if len(paths) != 1 or paths[0].undetermined:
+                raise AnalysisBroken("processResponseQueue: evaluation not determined for %s: %s" % (inst, [q.undetermined[:1] for q in paths]))
+            WAIT = prog.const("KSI_ASYNC_STATE_WAITING_FOR_RESPONSE")
+            ok = len(seterr) == 1 and seterr[0][0] == WAIT and isinstance(seterr[0][1], int) and seterr[0][1] != 0 and seterr[0][2] == (status or 0)
+            chk.ob("C13.errcode", inst, ok, "expected the waiting requests set to ERROR once with a code other than KSI_OK and extended code %#x; source: (state, code, extended) = %s"
+                   % (status or 0, [(s[0], hex(s[1]) if isinstance(s[1], int) else s[1], s[2]) for s in seterr]), loc=fn.loc(), fn=fn, nontrivial=not status)
